@@ -34,9 +34,10 @@ ASSUMPTIONS = ["the bar's data has an index/rate row, a price and a risk-table r
 
 
 def filled(st):
-    s = sum(0 if st[c]["empty"] else 1 for c in ("collC", "supAmtC", "supC"))
-    b = sum(0 if st[c]["empty"] else 1 for c in ("borAmtC", "borC"))
-    return f"s{s}b{b}"
+    """which sides have a filled cache before the call (a stale view needs a filled cache)"""
+    s = any(not st[c]["empty"] for c in ("collC", "supAmtC", "supC"))
+    b = any(not st[c]["empty"] for c in ("borAmtC", "borC"))
+    return ("S" if s else "s") + ("B" if b else "b")
 
 
 def observe_all(m, toks):
@@ -59,6 +60,7 @@ def run_sequence(ctx: Ctx, rng, nsteps, reqs, meta, exact_env=False, pandas_stat
     env["pandas_status"] = pandas_status
     m, b, actions = A.new_market(env, A.initial_wallet(rng, env))
     last_kind = None
+    was_stale = False
     for i in range(nsteps):
         env_next = None
         r = rng.random()
@@ -105,13 +107,17 @@ def run_sequence(ctx: Ctx, rng, nsteps, reqs, meta, exact_env=False, pandas_stat
                         break
                 if what:
                     break
-        if what is not None:
+        if what is not None and was_stale:
+            ctx.count("steps_in_an_already_stale_state")
+        was_stale_now = what is not None
+        if what is not None and not was_stale:
             v, w, c = what
             d = A.diff(w, c) or ""
             ctx.violate(f"stale:{v.split('(')[0]}:after:{op['kind']}:{outcome}",
                         f"after {op} ({outcome}) the view {v} differs from its from-scratch recomputation: {d[:300]}", case)
         reqs.append({"fn": "aave_specall", "ctx": "py", "env": A.env_json(env), "supplies": s1["supplies"], "borrows": s1["borrows"], "toks": toks})
         meta.append(("spec", case, cold, toks, op, outcome))
+        was_stale = was_stale_now
         last_kind = op["kind"]
         ctx.impl_traces += 1
 
@@ -125,6 +131,8 @@ def compare(ctx: Ctx, reqs, meta, outs):
             _, case, outcome, result, s1, fl = mt
             op = case["op"]
             name = op.get("view", op["kind"])
+            if name == "update":
+                name += f":liq{sum(1 for a in s1['actions'] if a['kind'] == 'liquidation')}"
             ctx.case(f"{name}:{o['tag']}:{A.arg_class(op)}:{fl}", {"op": op, "outcome": outcome})
             if o["outcome"] != outcome:
                 ctx.disagree(f"{op}: impl {outcome} model {o['outcome']}/{o['tag']}", case)
@@ -153,7 +161,7 @@ def compare(ctx: Ctx, reqs, meta, outs):
 
 def run(ctx: Ctx):
     rng = ctx.rng
-    nseq = ctx.scale(36, 1200)
+    nseq = ctx.scale(150, 4000)
     reqs, meta = [], []
     for i in range(nseq):
         run_sequence(ctx, rng, rng.randint(10, 26 if not ctx.thorough else 60), reqs, meta, exact_env=(i % 4 == 3), pandas_status=(i % 8 == 5))
